@@ -292,3 +292,57 @@ pub fn bad_stamp(f: &mut File, ts: Option<i64>) -> Result<()> {
     f.write_all(&t.to_le_bytes())?;
     Ok(())
 }
+
+// ---- variant test written with matches! (flag idiom) must count as a guard
+#[derive(Clone, Copy, PartialEq, Eq)]
+pub enum Status {
+    Active,
+    Deleted,
+}
+pub struct Rec {
+    pub status: Status,
+    pub bytes: Vec<u8>,
+}
+impl Store {
+    pub fn good_matches(&mut self, r: &Rec) -> Result<()> {
+        if matches!(r.status, Status::Active) {
+            self.file.write_all(&r.bytes)?;
+        }
+        Ok(())
+    }
+    pub fn bad_matches(&mut self, r: &Rec) -> Result<()> {
+        if r.bytes.len() > 3 {
+            self.file.write_all(&r.bytes)?;
+        }
+        Ok(())
+    }
+
+    // ---- a thin wrapper of append *is* an append for its callers
+    fn append_wrapped(&mut self, bytes: &[u8]) -> Result<u64> {
+        let seq = self.append(bytes)?;
+        Ok(seq)
+    }
+    pub fn good_wrapped_ack(&mut self, bytes: &[u8]) -> Result<u64> {
+        let seq = self.append_wrapped(bytes)?;
+        Ok(seq)
+    }
+}
+
+// ---- loop exits: only iterator exhaustion vs an early break
+pub fn good_insert_all(bits: &mut [u8], hashes: &[u64]) {
+    for &h in hashes {
+        let p = (h % (bits.len() as u64 * 8)) as usize;
+        bits[p / 8] |= 1 << (p % 8);
+    }
+}
+pub fn bad_insert_some(bits: &mut [u8], hashes: &[u64]) {
+    let mut n = 0usize;
+    for &h in hashes {
+        if n >= bits.len() {
+            break;
+        }
+        let p = (h % (bits.len() as u64 * 8)) as usize;
+        bits[p / 8] |= 1 << (p % 8);
+        n += 1;
+    }
+}
